@@ -2,6 +2,7 @@ import re
 
 from excel2pycl.src.context import Context
 from excel2pycl.src.excel import Excel
+from excel2pycl.src.exceptions import E2PyclParserException
 from excel2pycl.src.tokens import LambdaToken, PatternToken
 from excel2pycl.src.translators.abstract_translator import AbstractTranslator
 
@@ -32,6 +33,8 @@ class LambdaTokenTranslator(AbstractTranslator):
                     # the number is written out again as Python writes it (">007" is > 7: a leading zero is not Python)
                     condition_value = repr(float(parsed_literal[1])) if parsed_literal[3] or parsed_literal[6] \
                         else str(int(parsed_literal[1]))
+                    if condition_value == 'inf':
+                        raise E2PyclParserException(f'The number in the criterion {literal} is too large')
                 else:
                     condition_value = expression
 
